@@ -3,6 +3,7 @@
 from __future__ import annotations
 
 import itertools
+from fractions import Fraction
 import json
 import operator
 import time
@@ -24,10 +25,10 @@ def subsets(cells, maxn):
         yield from itertools.combinations(cells, r)
 
 
-def mk(dims, fmt, sub, base):
+def mk(dims, fmt, sub, base, step=0.5):
     from tensora import Tensor
 
-    model = {c: base + 0.5 * (k + 1) for k, c in enumerate(sub)}
+    model = {c: base + step * (k + 1) for k, c in enumerate(sub)}
     return Tensor.from_dok(dict(model), dimensions=dims, format=fmt), model
 
 
@@ -79,6 +80,48 @@ def judge(res, exc, expect, exp_dims, case, findings, stats, want_fmt=None, shap
             findings.append(_f("result-format", f"result format {fmt}, documented rule says {want_fmt}", case))
         else:
             stats["result formats per rule"] += 1
+
+
+INEXACT_VALUE_SETS = [(0.1, 0.3, 0.7, 0.2), (0.1, 0.7, 0.3, 1.1), (1 / 3, 1 / 7, 1 / 11, 1 / 13), (0.1, 0.37, 0.7, 0.23),
+                      (0.3, 0.11, 0.9, 0.17), (1 / 3, 0.3, 1 / 7, 0.7)]
+
+
+def fused_differs(pairs):
+    """Would accumulating these products with a fused multiply-add (single rounding) give a value that no order of
+    separately rounded multiply and add gives?"""
+    if len(pairs) < 2:
+        return False
+    acc = Fraction(0)
+    for x, y in pairs:
+        acc = Fraction(float(Fraction(x) * Fraction(y) + acc))
+    allowed = set()
+    for perm in itertools.permutations([x * y for x, y in pairs]):
+        t = 0.0
+        for p in perm:
+            t = t + p
+        allowed.add(t)
+    return float(acc) not in allowed
+
+
+def judge_rounding(res, terms, case, findings, stats):
+    """Inexact operands: every result cell must be the sum, in some order, of the correctly rounded products
+    (double multiply, then double add - what the element-wise definition means for doubles)."""
+    from ..rt import raw_decode
+
+    _dims, _fmt, stored, _problems = raw_decode(res)
+    for c, prods in terms.items():
+        allowed = set()
+        for perm in itertools.permutations(prods):
+            acc = 0.0
+            for p in perm:
+                acc = acc + p
+            allowed.add(acc)
+        got = stored.get(c, 0.0)
+        if got not in allowed:
+            findings.append(_f("operator-rounding", f"cell {c}: got {got!r}, but the rounded products {prods} sum to "
+                               f"{sorted(allowed)!r} in every order", case))
+            return
+    stats["results correctly rounded (inexact operands)"] += 1
 
 
 def _site(exc):
@@ -214,6 +257,30 @@ def work(unit):
                         if ok and natural(fa) and natural(fb):
                             want = ("" if oa == 1 else fa.modes[0].character) + ("" if ob == 1 else fb.modes[1].character)
                         judge(r, e, expect, exp_dims, case, findings, stats, want_fmt=want, shape_ok=ok)
+                        if ok and e is None:
+                            # the same pattern with operands whose products are inexact in binary; of a few value
+                            # sets, the first one for which fusing the multiply into the add would show
+                            ia = (lambda c, k: (k,) if oa == 1 else (c[0], k))
+                            ib = (lambda c, k: (k,) if ob == 1 else (k, c[-1]))
+                            terms = {}
+                            for ba, sta, bb, stb in INEXACT_VALUE_SETS:
+                                A2, ma2 = mk(da, fa, sa, ba, sta)
+                                B2, mb2 = mk(db, fb, sb, bb, stb)
+                                pairs = {c: [(ma2[ia(c, k)], mb2[ib(c, k)]) for k in range(inner_a)
+                                             if ia(c, k) in ma2 and ib(c, k) in mb2] for c in expect}
+                                terms = {c: [x * y for x, y in pr] for c, pr in pairs.items()}
+                                if any(fused_differs(pr) for pr in pairs.values()):
+                                    stats["inexact cases where a fused multiply-add would be visible"] += 1
+                                    break
+                            if any(len(t) >= 2 for t in terms.values()):
+                                n += 1
+                                try:
+                                    r2 = A2 @ B2
+                                except Exception as ex:  # noqa: BLE001
+                                    findings.append(_f("operator-raises", f"raised {type(ex).__name__}: {ex}", case,
+                                                       exception=type(ex).__name__, site=_site(ex)))
+                                else:
+                                    judge_rounding(r2, terms, {**case, "values": "inexact"}, findings, stats)
                     if too_many(findings):
                         break
     elif kind == "unsupported":
@@ -301,7 +368,7 @@ def run(tier, seed):
              "mismatches in both directions; a Python number from {0,1,-2,2.5,True} on either side; @ for every format "
              "pair of orders (1,1),(2,1),(1,2),(2,2) with matching (2,1,0) and mismatching inner dimensions; "
              "unsupported orders and non-numeric operands. Results are decoded from the raw arrays and compared with "
-             "dict arithmetic on exact dyadic values; ValueError exactly when shapes mismatch; NoKernelFoundError "
+             "dict arithmetic on exact dyadic values (for @ also with inexact operands: every cell must be a sum, in some order, of the correctly rounded products); ValueError exactly when shapes mismatch; NoKernelFoundError "
              "accepted; for natural mode orders the result format must follow the documented rule",
         exhaustive=True,
     )
